@@ -370,10 +370,13 @@ def _amalgamate_h5ad(
             layer = f'layers/{packet["layer"]}'
         with h5py.File(packet['path'], 'r') as src:
             attrs = dict(src[layer].attrs)
+            # key on (path, layer): two layers of one file can
+            # have different dtypes
+            dtype_key = f"{packet['path']}:{layer}"
             if attrs['encoding-type'] == 'array':
-                data_dtype_map[packet['path']] = src[layer].dtype
+                data_dtype_map[dtype_key] = src[layer].dtype
             else:
-                data_dtype_map[packet['path']] = src[f'{layer}/data'].dtype
+                data_dtype_map[dtype_key] = src[f'{layer}/data'].dtype
     if len(set(data_dtype_map.values())) > 1:
         to_output = {
             k: str(data_dtype_map[k])
